@@ -32,6 +32,8 @@ Valid(e, o) ==
   /\ IF o.kind = "rel"
        THEN /\ e.rel = o.rel.id /\ e.ri = o.ri /\ e.gi = o.gi /\ e.relkind = o.rel.kind
             /\ e.rangef = o.range.f /\ e.rangeclosed = (o.range.loClosed /\ o.range.hiClosed) /\ e.amp = o.rel.amp /\ e.npts >= o.minpts
+       ELSE IF o.kind = "soak"
+       THEN e.fn = o.fn /\ e.npts >= o.minpts /\ e.panics = 0 /\ e.diffs = 0        \* SoakN calls, none panicked, none differed
        ELSE /\ CSame(e.z, o.z) /\ e.k = o.k /\ CSame(e.expect, o.expect) /\ e.npts >= o.minpts
 
 Init == l = 1 /\ pos = 1 /\ strict = FALSE /\ TLCSet(1, 0)
@@ -41,7 +43,7 @@ Step == /\ l <= NRec
                 [] e.op = "end" -> /\ IF strict /\ pos # NOblig + 1 THEN Mismatch(l, e, "coverage incomplete: next " \o ToString(pos))
                                       ELSE IF strict /\ ~PairsCovered(e) THEN Mismatch(l, e, "adjacent pairs not covered") ELSE TRUE
                                    /\ pos' = 1 /\ strict' = FALSE
-                [] e.op \in {"rel", "sqrt_exact", "powk"} ->
+                [] e.op \in {"rel", "sqrt_exact", "powk", "soak"} ->
                      /\ IF ~InRange(e) THEN Mismatch(l, e, "not an obligation of the matrix")
                         ELSE IF strict /\ e.pos # pos THEN Mismatch(l, e, "coverage gap: expected " \o ToString(pos))
                         ELSE IF ~Valid(e, Oblig(e.pos)) THEN Mismatch(l, e, IF e.repeat THEN e.op ELSE "repeated call differs") ELSE TRUE
